@@ -53,3 +53,92 @@ def c16_schedule(v):
     v.oblige(st, z3.BoolVal(bool(m2) and int(m2.group(1).replace(',', '')) == I), "C16:lemma:docs-halving-interval")
     m3 = re.search(r'([0-9]+) coin subsidy', doc)
     v.oblige(st, z3.BoolVal(bool(m3) and int(m3.group(1)) == DOC_INITIAL_SUBSIDY_COIN), "C16:lemma:docs-initial-subsidy")
+
+
+# ---------------------------------------------------------------------------------------------------- C01
+
+def _lemma_state(v, modname='skepticoin.consensus'):
+    import importlib
+    from pyvc.engine import Frame
+    st = State()
+    st.stack.append(Frame({}, None, importlib.import_module(modname).__dict__, 'lemma'))
+    return st
+
+
+CQ = "skepticoin.consensus."
+
+
+def accepted_block(v):
+    """state in which a symbolic block has been accepted by full validation (both validators returned normally, height
+    above the checkpoint horizon) on a symbolic chain state, with the verified contracts of the two block validators
+    instantiated on it"""
+    from pyvc import CLS
+    st = _lemma_state(v)
+    block = v.fresh('block', CLS('Block'))
+    cs = v.fresh('coinstate', CLS('CoinState'))
+    now = v.fresh('now', INT)
+    st.frame.vars.update(block=block, coinstate=cs, now=now)
+    G = GH.ghosts
+    st.assume(G['ok_itself'](v, st, block, now).t)
+    st.assume(G['ok_in_state'](v, st, block, cs).t)
+    st.assume(v.spec_bool("block.header.summary.height > 163000", st))
+    assert v.use_contract(st, CQ + "validate_block_by_itself", block=block, current_timestamp=now)
+    assert v.use_contract(st, CQ + "validate_block_in_coinstate", block=block, coinstate=cs)
+    st.frame.vars['prev'] = v.spec_value("block.header.summary.previous_block_hash", st)
+    st.frame.vars['U'] = v.spec_value("coinstate.unspent_transaction_outs_by_hash[prev]", st)
+    st.frame.vars['txs'] = v.spec_value("block.transactions", st)
+    return st, block, cs, now
+
+
+def pick_input(v, st, jn='j0', kn='k0', tn='t0'):
+    """an arbitrary input k0 of an arbitrary non-reward transaction t0 = txs[1 + j0] of the block (skolem constants)"""
+    j0 = v.fresh(jn, INT)
+    k0 = v.fresh(kn, INT)
+    st.frame.vars[jn] = j0
+    st.frame.vars[kn] = k0
+    st.assume(v.spec_bool("0 <= %s < len(txs) - 1" % jn, st))
+    st.frame.vars[tn] = v.spec_value("txs[1 + %s]" % jn, st)
+    st.assume(v.spec_bool("0 <= %s < len(%s.inputs)" % (kn, tn), st))
+    return st.frame.vars[tn]
+
+
+@LM.lemma("C01.accepted-block", props=["C01"])
+def c01_accepted(v):
+    st, block, cs, now = accepted_block(v)
+    assert v.use_contract(st, CQ + "validate_coinbase_transaction_in_coinstate",
+                          transaction=v.spec_value("txs[0]", st), block=block, coinstate=cs)
+    v.oblige(st, v.spec_bool("prev in coinstate.block_by_hash and prev in coinstate.unspent_transaction_outs_by_hash", st),
+             "C01:lemma:parent-stored", "the parent is a stored block whose ledger state is the one consulted")
+    # an arbitrary spend in the block
+    s1 = st.fork()
+    t0 = pick_input(v, s1)
+    prev = s1.frame.vars['prev']
+    assert v.use_contract(s1, CQ + "validate_non_coinbase_transaction_in_coinstate", transaction=t0, at_hash=prev, coinstate=cs)
+    assert v.use_contract(s1, CQ + "validate_non_coinbase_transaction_by_itself", transaction=t0)
+    goals = {
+        "spends-exist-in-parent-state": "t0.inputs[k0].output_reference in U",
+        "spends-verify-under-spent-outputs-key": "G.spend_verifies(t0.inputs[k0], U[t0.inputs[k0].output_reference], t0)",
+        "real-signature-objects": "isinstance(t0.inputs[k0].signature, SECP256k1Signature)",
+        "not-the-null-reference": "not (t0.inputs[k0].output_reference.hash == ZERO32 and t0.inputs[k0].output_reference.index == 0)",
+    }
+    for name, text in goals.items():
+        v.oblige(s1, v.spec_bool(text, s1), "C01:lemma:" + name, text + "   [for arbitrary non-reward t0 = txs[1+j0], input k0]")
+    # no output is spent twice inside the block: two different input positions never carry the same reference
+    s2 = st.fork()
+    ta = pick_input(v, s2, 'j0', 'k0', 't0')
+    tb = pick_input(v, s2, 'j1', 'k1', 't1')
+    s2.assume(v.spec_bool("not (j0 == j1 and k0 == k1)", s2))
+    assert v.use_contract(s2, CQ + "validate_no_duplicate_output_references_in_transactions",
+                          transactions=v.spec_value("txs[1:]", s2))
+    v.oblige(s2, v.spec_bool("t0.inputs[k0].output_reference != t1.inputs[k1].output_reference", s2),
+             "C01:lemma:no-output-spent-twice-in-block", "two different input positions of the block never share a reference")
+    # no spent output is one created in that same block: every spent reference is in the parent's unspent set, and
+    # (A-FRESH) no output in the parent's set carries the id of a transaction of this block
+    s3 = s1.fork()
+    m0 = v.fresh('m0', INT)
+    s3.frame.vars['m0'] = m0
+    s3.assume(v.spec_bool("0 <= m0 < len(txs)", s3))
+    s3.assume(v.spec_bool("implies(t0.inputs[k0].output_reference in U, t0.inputs[k0].output_reference.hash != txs[m0].hash())", s3))
+    v.assumptions_used.add('A-FRESH')
+    v.oblige(s3, v.spec_bool("t0.inputs[k0].output_reference.hash != txs[m0].hash()", s3),
+             "C01:lemma:no-spend-of-output-created-in-same-block", "under A-FRESH, because the reference is in the parent's set")
